@@ -76,7 +76,7 @@ def replay_one(item):
     else:
         func = (tuple(roots[:-1]), roots[-1], roots[0])
         struct = (tuple(outs_pos[:-1]), outs_pos[-1], outs_pos[0])
-    has_loop = any(n['op'] in ('LoopSum', 'LoopConcat') for n in nodes)
+    has_loop = any(n['op'] in ('LoopSum', 'LoopConcat', 'LoopSumN') for n in nodes)
     # C->S pre-pass: record the executed statements of the generated script (first run and rerun) for three configurations
     for kw in (dict(_simplify=True, _optimize=True, cache_const_intermediates=True), dict(_simplify=False, _optimize=True, cache_const_intermediates=False),
                dict(_simplify=True, _optimize=False, cache_const_intermediates=True)):
@@ -163,7 +163,7 @@ def run(rep):
     # extended vocabulary (complex dtype, ...), kept separate so that the base sample is unchanged
     k = 300 if quick else 4000
     sel = exprs.select(progs, k // 3, rng, need_arg=True) + exprs.select(sims, k // 3, rng, need_arg=True) + exprs.select(loops, k // 3, rng)
-    ext = exprs.extended(rep, rng, 'c02-ext', ['cx', 'einsum', 'poly', 'search', 'dyn'], k // 20, quick=quick)
+    ext = exprs.extended(rep, rng, 'c02-ext', ['cx', 'einsum', 'poly', 'search', 'dyn', 'arglen', 'monomial'], k // 40, quick=quick)
     rep.lap('generated')
     for name, ps in ext.items():
         sel += ps
